@@ -461,3 +461,29 @@ Proof.
   - intros Hnd. destruct (run_total k ops empty_router [] inv_init Hnd) as [[r lg] H].
     exists r, lg. exact H.
 Qed.
+
+(* ---- ctrlStructName / handlerFuncName recover the declared identifier exactly ---- *)
+Lemma after_last_none c s : forall cur, ~ In c s -> after_last c s cur = rev cur ++ s.
+Proof.
+  induction s as [|x r IH]; intros cur H; cbn [after_last].
+  - rewrite app_nil_r. reflexivity.
+  - destruct (beqb x c) eqn:E.
+    + apply beqb_eq in E. subst. exfalso. apply H. left. reflexivity.
+    + rewrite IH by (intros Hi; apply H; right; exact Hi). cbn [rev]. rewrite <- app_assoc. reflexivity.
+Qed.
+
+Lemma after_last_app c q t : forall cur, after_last c (q ++ c :: t) cur = after_last c t [].
+Proof.
+  induction q as [|x q IH]; intros cur; cbn [app after_last].
+  - rewrite beqb_refl. reflexivity.
+  - destruct (beqb x c); apply IH.
+Qed.
+
+Lemma object_ident_exact q ident :
+  ~ In c_dot ident ->
+  object_ident (q ++ c_dot :: ident) = ident /\ object_ident ident = ident.
+Proof.
+  intros H. unfold object_ident. split.
+  - rewrite after_last_app. rewrite (after_last_none _ _ [] H). reflexivity.
+  - rewrite (after_last_none _ _ [] H). reflexivity.
+Qed.
